@@ -331,6 +331,9 @@ def execute(case, keep_text=False, after_fit=None):
         for r in range(Rn):
             if world.errors[r] is not None:
                 e, tb = world.errors[r]
+                if isinstance(e, samplers.RealNestleBudget):
+                    out.bump('probes', 'real_nestle_budget_exceeded')
+                    raise Stop()
                 if kind == 'nestle_real':
                     frames = [ln for ln in tb.splitlines()
                               if ln.startswith('  File ')]
